@@ -32,3 +32,20 @@ package encoder
 //@   loop 0: invariant 1 <= versionNum && versionNum <= 41
 //@   loop 0: invariant forall v int :: 1 <= v && v < versionNum ==> !fits(numInputBits, v, ecLevel)
 //@   loop 0: decreases 41 - versionNum
+
+// the encoder's copy of the mask predicates: x is the column, y the row
+//@ func MaskUtil_getDataMaskBit(maskPattern int, x int, y int) (r bool, e error)
+//@   property C07 C01
+//@   requires 0 <= x && 0 <= y
+//@   ensures (0 <= maskPattern && maskPattern <= 7) == (e == nil)
+//@   ensures 0 <= maskPattern && maskPattern <= 7 && y*x >= 0 ==> r == decoder.maskISO(maskPattern, y, x)
+//@   modifies nothing
+
+//@ func getNumDataBytesAndNumECBytesForBlockID(numTotalBytes int, numDataBytes int, numRSBlocks int, blockID int) (d int, ec int, e gozxing.WriterException)
+//@   property C07 C01
+//@   opt realmul=on
+//@   requires numRSBlocks >= 1 && 0 <= blockID && 0 <= numDataBytes && numDataBytes <= numTotalBytes && numTotalBytes <= 1<<20
+//@   ensures blockID >= numRSBlocks ==> e != nil
+//@   ensures e == nil ==> blockID < numRSBlocks && ec == numTotalBytes / numRSBlocks - numDataBytes / numRSBlocks && d == numDataBytes / numRSBlocks + (blockID < numRSBlocks - numTotalBytes % numRSBlocks ? 0 : 1)
+//@   ensures e == nil ==> numTotalBytes == (numDataBytes / numRSBlocks + ec) * (numRSBlocks - numTotalBytes % numRSBlocks) + (numDataBytes / numRSBlocks + 1 + ec) * (numTotalBytes % numRSBlocks)
+//@   modifies nothing
